@@ -211,7 +211,7 @@ Proof.
   intros (W1 & W2 & W3 & W4 & W5) H. unfold p_rb, r_rb.
   eb_step W1. step.
   eapply bind_step.
-  { unfold loop. apply (loop_addrs _ ltac:(solve [hn_tac]) _ W3). rewrite app_length, map_length. lia. }
+  { unfold loop. eapply loop_addrs; [solve [hn_tac] | exact W3 | rewrite app_length, map_length; lia]. }
   cbn beta.
   eapply bind_step; [apply (pimm_rimm p_imm_i64 sh_ilit il_val wf_i64 ident _ _ _ _ ileaf_i64 W4)|]. cbn beta.
   step.
@@ -219,3 +219,106 @@ Proof.
   step. step. step.
   cbn [eb_invs n_eb]. rewrite W2. rewrite map_fst_pair, map_snd_pair. reflexivity.
 Qed.
+
+(* ---------------------------------------------------------------------------------------------- *)
+(* the register kinds                                                                               *)
+
+Ltac rb_step W :=
+  eapply bind_step; [ apply p_rb_rt; [exact W | solve [hn_tac]] | cbn beta ].
+
+Definition wf_bitmask (b : bitmask ilit) : Prop :=
+  match b with BmBit x => wf_u64 x | BmRange l m => wf_u64 l /\ wf_u64 m end.
+
+Lemma p_bitmask_rt b k : wf_bitmask b -> p_bitmask (r_bitmask b k) = Ok (n_bitmask b, k).
+Proof.
+  intros W. unfold p_bitmask. destruct b as [x|l m]; cbn [r_bitmask n_bitmask wf_bitmask] in *.
+  - eapply bind_step; [apply parse_if_present; apply leaf_u64; exact W | reflexivity].
+  - destruct W as [W1 W2]. eapply bind_step; [reflexivity|]. cbn beta iota.
+    eapply bind_step; [apply leaf_u64; exact W1|]. cbn beta.
+    eapply bind_step; [apply leaf_u64; exact W2|]. reflexivity.
+Qed.
+Lemma hn_r_bitmask ts b k : mem_str T_Bit ts = false -> mem_str T_LSB ts = false -> hn ts (r_bitmask b k).
+Proof. intros H1 H2. destruct b; [exact H1 | exact H2]. Qed.
+
+Ltac hn_tac ::=
+  repeat first
+    [ apply hn_nil
+    | apply hn_elem; reflexivity
+    | apply hn_ropt; [reflexivity|]
+    | apply hn_rmany; [reflexivity|]
+    | apply hn_rimm; [reflexivity|reflexivity]
+    | apply hn_roimm; [reflexivity|reflexivity|]
+    | apply hn_r_vk; reflexivity
+    | apply hn_r_named; [reflexivity|]
+    | apply hn_addrs; [reflexivity|]
+    | apply hn_r_bitmask; reflexivity
+    | (eapply hn_incl; [eassumption|reflexivity]) ].
+
+Definition wf_intreg (n : intreg Src) : Prop := wf_rb (ir_rb n).
+Lemma intreg_rt n : wf_intreg n ->
+  match r_intreg n with Elem _ attrs ch => p_intreg attrs ch | _ => fail [] end
+  = Ok ((n_intreg n, rb_nodes (ir_rb n)), []).
+Proof.
+  intros W. unfold r_intreg, p_intreg, r_int_tail. rewrite with_attr_rt.
+  rb_step W. step. step. step. step. step. reflexivity.
+Qed.
+
+Definition wf_masked (n : maskedreg Src) : Prop := wf_rb (mr_rb n) /\ wf_bitmask (mr_mask n).
+Lemma masked_rt n : wf_masked n ->
+  match r_masked n with Elem _ attrs ch => p_masked attrs ch | _ => fail [] end
+  = Ok ((n_masked n, rb_nodes (mr_rb n)), []).
+Proof.
+  intros (W1 & W2). unfold r_masked, p_masked, r_int_tail. rewrite with_attr_rt.
+  rb_step W1. eapply bind_step; [apply p_bitmask_rt; exact W2|]. cbn beta.
+  step. step. step. step. step. reflexivity.
+Qed.
+
+Definition wf_floatreg (n : floatreg Src) : Prop := wf_rb (fr_rb n) /\ oall wf_i64 (fr_dprec n).
+Lemma floatreg_rt n : wf_floatreg n ->
+  match r_floatreg n with Elem _ attrs ch => p_floatreg attrs ch | _ => fail [] end
+  = Ok ((n_floatreg n, rb_nodes (fr_rb n)), []).
+Proof.
+  intros (W1 & W2). unfold r_floatreg, p_floatreg, r_float_tail. rewrite with_attr_rt.
+  rb_step W1. step. step. step. step. step. reflexivity.
+Qed.
+
+Definition wf_regnode (n : regnode Src) : Prop := wf_rb (rn_rb n).
+Lemma regnode_rt tag n : wf_regnode n ->
+  match r_regnode tag n with Elem _ attrs ch => p_regnode attrs ch | _ => fail [] end
+  = Ok ((n_regnode n, rb_nodes (rn_rb n)), []).
+Proof. intros W. unfold r_regnode, p_regnode. rewrite with_attr_rt. rb_step W. reflexivity. Qed.
+
+Ltac node_tac2 H :=
+  cbn [render]; unfold r_intreg, r_masked, r_floatreg, r_regnode, r_iswiss, r_enumeration, r_struct in *;
+  match goal with
+  | |- parse_node ?fx ?fr (Elem ?t ?a ?c) = _ => change (parse_node fx fr (Elem t a c)) with (parse_leaf fx fr t a c)
+  end;
+  unfold parse_leaf;
+  repeat match goal with
+         | |- context [str_eqb ?x ?y] => let b := eval vm_compute in (str_eqb x y) in change (str_eqb x y) with b
+         end;
+  cbn [orb]; cbv iota; rewrite H; reflexivity.
+
+Lemma node_intreg fixed fresh n : wf_intreg n ->
+  parse_node fixed fresh (render (SnIntReg n)) =
+  Ok (mkPres (rb_nodes (ir_rb n)) [NdIntReg (n_intreg n)] (reg_invs (n_rb (ir_rb n)) (a_name (ir_attr n))) fresh).
+Proof. intros W. pose proof (intreg_rt n W) as H. node_tac2 H. Qed.
+Lemma node_masked fixed fresh n : wf_masked n ->
+  parse_node fixed fresh (render (SnMaskedIntReg n)) =
+  Ok (mkPres (rb_nodes (mr_rb n)) [NdMaskedIntReg (n_masked n)] (reg_invs (n_rb (mr_rb n)) (a_name (mr_attr n))) fresh).
+Proof. intros W. pose proof (masked_rt n W) as H. node_tac2 H. Qed.
+Lemma node_floatreg fixed fresh n : wf_floatreg n ->
+  parse_node fixed fresh (render (SnFloatReg n)) =
+  Ok (mkPres (rb_nodes (fr_rb n)) [NdFloatReg (n_floatreg n)] (reg_invs (n_rb (fr_rb n)) (a_name (fr_attr n))) fresh).
+Proof. intros W. pose proof (floatreg_rt n W) as H. node_tac2 H. Qed.
+Lemma node_stringreg fixed fresh n : wf_regnode n ->
+  parse_node fixed fresh (render (SnStringReg n)) =
+  Ok (mkPres (rb_nodes (rn_rb n)) [NdStringReg (n_regnode n)] (reg_invs (n_rb (rn_rb n)) (a_name (rn_attr n))) fresh).
+Proof. intros W. pose proof (regnode_rt T_StringReg n W) as H. node_tac2 H. Qed.
+Lemma node_register fixed fresh n : wf_regnode n ->
+  parse_node fixed fresh (render (SnRegister n)) =
+  Ok (mkPres (rb_nodes (rn_rb n)) [NdRegister (n_regnode n)] (reg_invs (n_rb (rn_rb n)) (a_name (rn_attr n))) fresh).
+Proof. intros W. pose proof (regnode_rt T_Register n W) as H. node_tac2 H. Qed.
+Lemma node_iswiss fixed fresh n : wf_iswiss n ->
+  parse_node fixed fresh (render (SnIntSwissKnife n)) = Ok (pres1 fresh (NdIntSwissKnife (n_iswiss n))).
+Proof. intros W. pose proof (iswiss_rt n W) as H. node_tac2 H. Qed.
